@@ -2707,7 +2707,7 @@ Definition pc_step3 (seq inst : Z) (mc : mdib * cmdib) (x : txn) : mdib * cmdib 
   match ab, body k m empty_tx acts with
   | None, Ok t =>
       if Z.eqb k 6 then
-        if subtree_conflict m t then (m, c)      (* ApiUsageError: nothing changes, nothing is sent *)
+        if subtree_conflict m t || orphan_create m t then (m, c)   (* ApiUsageError: nothing changes, nothing is sent *)
         else
         match t_d t with
         | [] => (m, c)
@@ -2727,15 +2727,24 @@ Definition pc_step3 (seq inst : Z) (mc : mdib * cmdib) (x : txn) : mdib * cmdib 
   | _, _ => (m, c)
   end.
 
+(* process_transaction refuses a transaction that would create an orphan: what passes creates none *)
+Lemma orphan_create_dpar_ok m t : orphan_create m t = false -> dpar_ok m t.
+Proof.
+  intros E h d p Hin En Ep. pose proof (existsb_false _ _ E (h, Some d) Hin) as G. cbn [fst snd] in G.
+  unfold is_create in G. cbn [fst snd] in G. rewrite En, Ep in G. cbn [andb] in G.
+  destruct (descrs m p) eqn:Ex; [left; discriminate|]. rewrite andb_true_r in G. apply negb_false_iff in G.
+  right. apply (cr_of_spec m t p) in G. destruct G as (d' & Hd' & _). now exists d'.
+Qed.
+
 (* admissible transactions, relative to the MDIB they are applied to: state transactions of any kind; context
    transactions that report everything they do (no deletion through the entity interface - the known finding);
-   descriptor transactions of any add / update / remove / get_state calls that create no orphan (dpar_ok) - a
-   transaction that process_transaction refuses (subtree_conflict) is covered: nothing changes, nothing is sent *)
+   descriptor transactions of ANY add / update / remove / get_state calls - what process_transaction refuses
+   (subtree_conflict, orphan_create) changes nothing and sends nothing *)
 Definition txn_ok (m : mdib) (x : txn) : Prop :=
   let '(k, ab, acts) := x in
   (0 <= k < 5 /\ state_only acts) \/
   (k = 5 /\ ctx_only acts /\ fresh_ok m acts /\ forall t, body 5 m empty_tx acts = Ok t -> no_deletion t) \/
-  (k = 6 /\ descr_only acts /\ forall t, body 6 m empty_tx acts = Ok t -> dpar_ok m t).
+  (k = 6 /\ descr_only acts).
 
 Fixpoint hist_ok (m : mdib) (hist : list txn) : Prop :=
   match hist with
@@ -2755,7 +2764,7 @@ Proof.
   destruct ab as [n|].
   { cbn [fst snd]. split; [symmetry; apply abort_never_commits|exact Same]. }
   unfold transaction. destruct (body k m empty_tx acts) as [t|e] eqn:B; [|cbn [fst snd]; split; [now destruct e|exact Same]].
-  destruct Hx as [[Hk Ho]|[(-> & Ho & Hf & Hnd)|(-> & Ho & Hdp)]].
+  destruct Hx as [[Hk Ho]|[(-> & Ho & Hf & Hnd)|(-> & Ho)]].
   - (* state transaction *)
     assert (Hok : stx_ok k m t) by (eapply body_state_ok; try eassumption; apply empty_stx_ok).
     replace (k =? 6) with false by lia. replace (k =? 5) with false by lia. cbn [fst].
@@ -2782,8 +2791,9 @@ Proof.
       destruct (commit_ctx_pointwise m t Hok) as (Dd & _). unfold tree_ok. rewrite Dd. exact Htr.
   - (* descriptor transaction *)
     change (6 =? 6) with true. cbv iota.
-    destruct (subtree_conflict m t) eqn:Ec; [cbn [fst snd]; split; [reflexivity|exact Same]|].
-    cbn [fst].
+    destruct (subtree_conflict m t) eqn:Ec; [cbn [orb fst snd]; split; [reflexivity|exact Same]|].
+    destruct (orphan_create m t) eqn:Eor; [cbn [orb fst snd]; split; [reflexivity|exact Same]|].
+    cbn [orb fst].
     destruct (t_d t) as [|i0 l0] eqn:Et.
     + cbn [fst snd]. split; [symmetry; now apply commit_descr_empty|exact Same].
     + cbn [fst snd]. split; [reflexivity|].
@@ -2793,7 +2803,7 @@ Proof.
       subst seq inst.
       destruct (mirror_step_descr_all m t c Hpm Hok Hne Hmir Hcd) as (A1 & A2 & A3 & A4 & A5). cbv zeta in *.
       split; [exact A1|]. split; [exact A2|]. split; [exact A5|].
-      split; [exact (commit_descr_tree_ok m t Hpm Hok Hne Htr (Hdp t B))|now split].
+      split; [exact (commit_descr_tree_ok m t Hpm Hok Hne Htr (orphan_create_dpar_ok m t Eor))|now split].
 Qed.
 
 Theorem mirror_history3 seq inst hist : forall m c,
@@ -2840,9 +2850,11 @@ Proof.
 Qed.
 
 Theorem descr_body_wellformed m acts t :
-  descr_only acts -> body 6 m empty_tx acts = Ok t -> subtree_conflict m t = false -> tree_ok m -> dtx_ok m t.
+  descr_only acts -> body 6 m empty_tx acts = Ok t -> subtree_conflict m t || orphan_create m t = false ->
+  tree_ok m -> dtx_ok m t /\ dpar_ok m t.
 Proof.
-  intros Ho B Hc Htr. apply dtx_ok_intro; [|exact Hc|now apply tree_dpar_res].
+  intros Ho B Hc Htr. apply orb_false_elim in Hc. destruct Hc as [Hc Hor].
+  split; [|now apply orphan_create_dpar_ok]. apply dtx_ok_intro; [|exact Hc|now apply tree_dpar_res].
   eapply body_dshape; [exact Ho|apply empty_dshape|exact B].
 Qed.
 
